@@ -18,6 +18,10 @@ import (
 // theme special rules.
 func VerifC28Export() {
 	fill, stroke, fc, sw, dash, pat := "red", "#123", "honeydew", "5", "3", "lines"
+	if nd.Bool("zero") {
+		// values that are the zero value of their field: set explicitly they are still the user's
+		sw, dash = "0", "0"
+	}
 	shapes := []string{"rectangle", "c4-person", "person", "text", "class", "sql_table", "circle", "hexagon"}
 	shape := shapes[nd.Choose("shape", 0, nd.Param("SHAPES", len(shapes))-1)]
 	// which attributes the user sets: all of them, all but one, or only one
@@ -83,6 +87,9 @@ func VerifC28Export() {
 	if sSW {
 		est = append(est, "stroke-width: "+sw)
 	}
+	if sDash {
+		est = append(est, "stroke-dash: "+dash)
+	}
 	if sOp {
 		est = append(est, "opacity: 0.4")
 	}
@@ -91,13 +98,16 @@ func VerifC28Export() {
 		estyle = "label: e"
 	}
 	var text string
-	switch nd.Choose("where", 0, 2) {
+	switch nd.Choose("where", 0, nd.Param("WHERES", 4)-1) {
 	case 0: // a top-level leaf
 		text = "x: {shape: " + shape + "; " + style + "}\ny\nx -> y: {" + estyle + "}\n"
 	case 1: // a top-level container
 		text = "x: {" + style + "; c}\ny\nx.c -> y: {" + estyle + "}\n"
 	case 2: // a nested leaf
 		text = "p: {x: {shape: " + shape + "; " + style + "}}\ny\np.x -> y: {" + estyle + "}\n"
+	case 3: // a group of a sequence diagram and a message inside it
+		nd.Assume(!sPat && !sDB && !sRad)
+		text = "q: {shape: sequence_diagram; a; b; x: {" + style + "; a -> b: {" + estyle + "}}}\n"
 	}
 	g, _, err := d2compiler.Compile("index.d2", strings.NewReader(text), nil)
 	nd.Assert(err == nil, "the template compiles")
@@ -171,6 +181,9 @@ func VerifC28Export() {
 	}
 	if sSW {
 		nd.Assert(strconv.Itoa(c.StrokeWidth) == sw, "the user's connection stroke-width is exported unchanged")
+	}
+	if sDash {
+		nd.Assert(strconv.Itoa(int(c.StrokeDash)) == dash, "the user's connection stroke-dash is exported unchanged")
 	}
 	if sFC {
 		nd.Assert(c.Color == fc, "the user's connection font-color is exported unchanged")
